@@ -81,7 +81,9 @@ let tp_upd_fun f =
   if f.f_ranges = [] then (fun _ _ -> f.f_own)
   else
     let (base, tab) = !tp_zone in
-    (fun b e -> tp_script_func (tp_tab_off base tab) (tp_tab_mk base tab)
+    (* the form of IsInTimeRange's day number and of ScriptFunc's day loop is the one the source has now
+       (Facts_c08, regenerated on every run) *)
+    (fun b e -> tp_script_func (tp_tab_off base tab) (tp_tab_mk base tab) tp_src_stride_round tp_src_lookback
         (List.map (fun (_, dd, trs) -> (dd, trs)) f.f_ranges) b e)
 
 let op_tp_upd a =
@@ -170,7 +172,7 @@ let oracle_c08_case script trace =
                 let (base, tab) = !zone in
                 let rg = List.map (fun (_, dd, trs) -> (dd, trs)) f.f_ranges in
                 let noop = (not clear) && int_of_z (zi "e") < int_of_z (tp_ve_num pre) in
-                if (not noop) && not (tp_cal_hyps_ok base tab rg (tp_upd_begin (zi "b") clear pre) (zi "e")) then
+                if (not noop) && not (tp_cal_hyps_ok tp_src_stride_round tp_src_lookback base tab rg (tp_upd_begin (zi "b") clear pre) (zi "e")) then
                   Some "calendar-hypotheses-not-met (table / exists-exactly-once check failed)"
                 else
                 match tp_cal_step_ok base tab
